@@ -13,7 +13,7 @@ OWNER = {
     "newp": "C03", "useful": "C03",
     "nocrash": "C06", "idle": "C06", "disjoint": "C06", "uinp": "C06", "mono": "C06", "noreturn": "C06", "round": "C06",
     "samples": "C06", "cost": "C06", "ret": "C06", "flatp": "C06",
-    "accurate": "C01",
+    "accurate": "C01", "modeled": "C01",
     "sactive": "C07", "sargmax": "C07", "sdistinct": "C07", "data": "C07",
 }
 
@@ -267,10 +267,14 @@ def accuracy_runs(ctx, prop):
     byid = {T["tid"]: T for T in traces}
     judged = sum(1 for T in traces if T.get("final", {}).get("judge"))
     for tid, l, failing, rec in rejects:
-        if "accurate" not in failing:
-            continue
         T = byid[tid]
         c = T["cfg"]
+        if "modeled" in failing:
+            ctx.violation("not-remodelled|%s|%s" % (c["alg"], c.get("type") or c.get("confidence_type") or c["script"]["kind"]),
+                          {"cfg": c, "step": l, "pre": T["steps"][l - 1]["pre"]},
+                          "%s step %d: a design that was active when the round was modelled does not display this round's posterior (%s)" % (c["alg"], l, c))
+        if "accurate" not in failing:
+            continue
         if "order" not in c:
             W = [[1, 0], [0, 1]]
         elif c["order"][0] in ("W", "Wint"):
@@ -362,7 +366,7 @@ def run_traces(ctx, kind, prop):
         step = T["steps"][l - 1]
         for cl in failing:
             owner = OWNER.get(cl, "?")
-            if cl == "accurate":
+            if cl in ("accurate", "modeled"):
                 owner = "C05" if AT.ALG_FAM[T["alg"]] == "vogp" else "C01"
                 if owner == prop:
                     continue        # reported by accuracy_runs of C01 / C05 with their own signatures
